@@ -182,8 +182,43 @@ def forms_agree(m, rec, case):
     if buf.getvalue() != want:
         rec.violation('report-file-differs-from-report', case, {'file': buf.getvalue()[:200], 'want': want[:200]})
         return None
+    # "any object with a write method" (the docstring of validate) and a path
+    class WriteOnly(object):
+        def __init__(self):
+            self.parts = []
+
+        def write(self, text):
+            self.parts.append(text)
+    wo = WriteOnly()
+    try:
+        m.validate(report_file=wo, return_errors=True)
+    except Exception as e:
+        rec.violation('report-file-object-with-write-only-raised:%s' % type(e).__name__, case, {'exc': repr(e)[:200]})
+        return None
+    if ''.join(wo.parts) != want:
+        rec.violation('report-file-differs-from-report', case, {'file': ''.join(wo.parts)[:200], 'want': want[:200],
+                                                               'kind': 'write-only object'})
+        return None
+    global _report_paths
+    _report_paths += 1
+    if _report_paths % 50 == 1:
+        import os
+        import tempfile
+        fd, path = tempfile.mkstemp(prefix='hl7mon-report-', suffix='.txt')
+        os.close(fd)
+        try:
+            m.validate(report_file=path, return_errors=True)
+            got = open(path).read()
+        finally:
+            os.remove(path)
+        if got != want:
+            rec.violation('report-file-differs-from-report', case, {'file': got[:200], 'want': want[:200], 'kind': 'path'})
+            return None
     rec.count('forms_compared')
     return r1
+
+
+_report_paths = 0
 
 
 def drain(rec, case_hint):
@@ -511,6 +546,27 @@ def run_iti21(spec, rec):
         if r is None:
             continue
         rec.count('iti21_verdicts')
+        # the forced validation of parse_message (with and without the profile) writes the same report to a report file and
+        # raises the first error
+        for prof in (mp, None):
+            buf = io.StringIO()
+            raised = None
+            try:
+                parser.parse_message(text, message_profile=prof, force_validation=True, report_file=buf)
+            except Exception as e:
+                raised = e
+            expect = report(parser.parse_message(text, message_profile=prof))
+            lines = [l for l in buf.getvalue().splitlines() if l.strip()]
+            want_lines = ['Error: %s' % e for e in expect[0]] + ['Warning: %s' % w for w in expect[1]]
+            rec.count('forced_validation_report_checks')
+            if sorted(lines) != sorted(want_lines):
+                rec.violation('forced-validation-report-file-differs', dict(case, with_profile=prof is not None),
+                              {'file_lines': lines[:3], 'expected': want_lines[:3]})
+                break
+            if bool(expect[0]) != (raised is not None) or (raised is not None and str(raised) != expect[0][0]):
+                rec.violation('forced-validation-raising-form-differs', dict(case, with_profile=prof is not None),
+                              {'raised': repr(raised)[:100], 'first_error': expect[0][:1]})
+                break
         if kind == 'none' and r[0]:
             rec.violation('conforming-instance-rejected:profile', case, {'errors': r[0][:3]})
         elif kind != 'none' and not any(named in e for e in r[0]):
